@@ -32,10 +32,14 @@ def clock_now(ip):
     p.assume(epoch_term() >= 0)
     # stated time bound: every clock reading is < 2^62 us (146 000 years) after EPOCH
     p.assume(t - epoch_term() < (1 << 62) * 1000)
+    floor = getattr(p, 'clock_floor', None)
+    if floor is not None:
+        p.assume(t >= floor)                      # a history obligation let time pass
     span = getattr(p, 'clock_span_ns', None)
     readings0 = getattr(p, 'clock_readings', [])
     if span is not None and readings0:
-        p.assume(t - readings0[0] < span)        # stated bound of a history obligation: the whole history happens within `span`
+        base = getattr(p, 'clock_span_base', None)
+        p.assume(t - (base if base is not None else readings0[0]) < span)        # stated bound of a history obligation: the whole history happens within `span`
     p.clock_last = t
     readings = getattr(p, 'clock_readings', [])
     readings.append(t)
